@@ -3,6 +3,131 @@ import Pyab.Spec.Grammar
 namespace Pyab.Proofs
 open Pyab Pyab.Spec
 
+/-! ### Sequence derivations: append / split / singleton -/
+
+theorem derivesSeq_append {prods : List Prod} :
+    ∀ (Xs Ys : List String) (ts us : List String),
+      DerivesSeq prods Xs ts → DerivesSeq prods Ys us → DerivesSeq prods (Xs ++ Ys) (ts ++ us)
+  | [], Ys, ts, us, h1, h2 => by
+    cases h1
+    simpa using h2
+  | X :: Xs, Ys, ts, us, h1, h2 => by
+    cases h1 with
+    | cons _ _ t1 t2 hX hXs =>
+      have := derivesSeq_append Xs Ys t2 us hXs h2
+      have h3 := DerivesSeq.cons X (Xs ++ Ys) t1 (t2 ++ us) hX this
+      simpa [List.append_assoc] using h3
+
+theorem derivesSeq_split {prods : List Prod} :
+    ∀ (Xs Ys : List String) (ts : List String),
+      DerivesSeq prods (Xs ++ Ys) ts →
+      ∃ t1 t2, ts = t1 ++ t2 ∧ DerivesSeq prods Xs t1 ∧ DerivesSeq prods Ys t2
+  | [], Ys, ts, h => ⟨[], ts, by simp, .nil, by simpa using h⟩
+  | X :: Xs, Ys, ts, h => by
+    rw [List.cons_append] at h
+    cases h with
+    | cons _ _ t1 t2 hX hrest =>
+      obtain ⟨u1, u2, hu, h1, h2⟩ := derivesSeq_split Xs Ys t2 hrest
+      exact ⟨t1 ++ u1, u2, by simp [hu, List.append_assoc], .cons X Xs t1 u1 hX h1, h2⟩
+
+theorem derivesSeq_single {prods : List Prod} {X : String} {ts : List String}
+    (h : Derives prods X ts) : DerivesSeq prods [X] ts := by
+  have := DerivesSeq.cons X [] ts [] h .nil
+  simpa using this
+
+theorem derives_of_derivesSeq_single {prods : List Prod} {X : String} {ts : List String}
+    (h : DerivesSeq prods [X] ts) : Derives prods X ts := by
+  cases h with
+  | cons _ _ t1 t2 hX hnil =>
+    cases hnil
+    simpa using hX
+
+/-! ### The driver invariant -/
+
+/-- the stack symbols, bottom to top -/
+def stackSyms (stack : List Entry) : List String := stack.reverse.map (·.sym)
+
+theorem popN_spec {n : Nat} {stack args stack' : List Entry}
+    (h : popN n stack = some (args, stack')) :
+    stackSyms stack = stackSyms stack' ++ args.map (·.sym) := by
+  unfold popN at h
+  split at h
+  · simp only [Option.some.injEq] at h
+    obtain ⟨rfl, rfl⟩ := h
+    unfold stackSyms
+    rw [← List.map_append, ← List.reverse_append, List.take_append_drop]
+  · cases h
+
+theorem lrLoop_sound (tb : LRTables) :
+    ∀ (fuel : Nat) (stack : List Entry) (consumed : List String) (input : List Token) (e : Experiment),
+      DerivesSeq tb.prods.toList (stackSyms stack) consumed →
+      lrLoop tb fuel stack input = .ok e →
+      Derives tb.prods.toList tb.startSym (consumed ++ input.map (·.kind))
+  | 0, _, _, _, _, _, h => by
+    simp [lrLoop, throw, throwThe, MonadExceptOf.throw] at h
+  | fuel + 1, stack, consumed, input, e, hinv, h => by
+    unfold lrLoop at h
+    simp only at h
+    split at h
+    · cases h
+    · rename_i t _
+      split at h
+      · -- shift
+        split at h
+        · rename_i tok rest _
+          have hinv' : DerivesSeq tb.prods.toList
+              (stackSyms (⟨t.toNat, tok.kind, .tok tok⟩ :: stack)) (consumed ++ [tok.kind]) := by
+            have := derivesSeq_append _ _ _ _ hinv
+              (derivesSeq_single (Derives.leaf (prods := tb.prods.toList) tok.kind))
+            simpa [stackSyms] using this
+          have := lrLoop_sound tb fuel _ _ rest e hinv' h
+          simpa [List.append_assoc] using this
+        · cases h
+      · split at h
+        · -- reduce
+          split at h
+          · cases h
+          · rename_i p hp
+            split at h
+            · cases h
+            · rename_i args stack' hpop
+              split at h
+              · cases h
+              · rename_i hrhs
+                have hrhs' : args.map (·.sym) = p.rhs := by
+                  simpa using hrhs
+                split at h
+                · cases h
+                · rename_i v _
+                  split at h
+                  · cases h
+                  · rename_i g _
+                    have hsy := popN_spec hpop
+                    rw [hsy, hrhs'] at hinv
+                    obtain ⟨t1, t2, rfl, h1, h2⟩ := derivesSeq_split _ _ _ hinv
+                    have hmem : p ∈ tb.prods.toList := by
+                      have := List.mem_of_getElem? (l := tb.prods.toList)
+                        (by simpa using hp : tb.prods.toList[(-t).toNat]? = some p)
+                      exact this
+                    have hnode : Derives tb.prods.toList p.lhs t2 := .node p t2 hmem h2
+                    have hinv' : DerivesSeq tb.prods.toList
+                        (stackSyms (⟨g, p.lhs, v⟩ :: stack')) (t1 ++ t2) := by
+                      have := derivesSeq_append _ _ _ _ h1 (derivesSeq_single hnode)
+                      simpa [stackSyms] using this
+                    exact lrLoop_sound tb fuel _ _ input e hinv' h
+        · -- accept
+          split at h
+          · rename_i st sym e' _
+            split at h
+            · rename_i hsym
+              have hsym' : sym = tb.startSym := by simpa using hsym
+              subst hsym'
+              have : DerivesSeq tb.prods.toList [tb.startSym] consumed := by
+                simpa [stackSyms] using hinv
+              simpa using derives_of_derivesSeq_single this
+            · cases h
+          · cases h
+
 /-- LR soundness for *any* tables: whatever action / goto tables the translator dumped,
     a token list the driver accepts is a sentence of the production list — nothing is
     skipped, nothing is left over, and the whole input is one derivation of the start
@@ -11,11 +136,21 @@ open Pyab Pyab.Spec
 theorem lrParse_sound (tb : LRTables) (toks : List Token) (e : Experiment)
     (h : lrParse tb toks = .ok e) :
     Derives tb.prods.toList tb.startSym (toks.map (·.kind)) := by
-  sorry
+  have := lrLoop_sound tb _ [] [] toks e (by simpa [stackSyms] using DerivesSeq.nil) h
+  simpa using this
 
+mutual
 /-- derivations are monotone in the production list -/
 theorem derives_mono (ps qs : List Prod) (hsub : ∀ p, p ∈ ps → p ∈ qs) (X : String) (ts : List String)
-    (h : Derives ps X ts) : Derives qs X ts := by
-  sorry
+    (h : Derives ps X ts) : Derives qs X ts :=
+  match h with
+  | .leaf t => .leaf t
+  | .node p ts hp hs => .node p ts (hsub p hp) (derivesSeq_mono ps qs hsub _ _ hs)
+theorem derivesSeq_mono (ps qs : List Prod) (hsub : ∀ p, p ∈ ps → p ∈ qs) (Xs : List String) (ts : List String)
+    (h : DerivesSeq ps Xs ts) : DerivesSeq qs Xs ts :=
+  match h with
+  | .nil => .nil
+  | .cons X Xs t1 t2 hX hXs => .cons X Xs t1 t2 (derives_mono ps qs hsub _ _ hX) (derivesSeq_mono ps qs hsub _ _ hXs)
+end
 
 end Pyab.Proofs
